@@ -190,6 +190,7 @@ def run(chk: Check) -> int:
     chk.prove(["theories/Props/C12.vo", "theories/Run/L1DScaleRun.vo"], THEOREMS)
     ncases = 260 if chk.quick else 3000
     maxlen = 26 if chk.quick else 90
+    ncoq = 260 if chk.quick else 500       # twin pairs also run through the Coq model (the terms are large)
     cases, metas = [], []
     hist = {}
     stats = {"rescale_sweeps": 0, "interior_ask_with_pending": 0, "batch": 0, "vector": 0, "nn1": 0,
@@ -217,7 +218,7 @@ def run(chk: Check) -> int:
         for step, kind, detail in r["errors"][:1]:
             chk.fail(f"C12:1D rescaled Learner1D diverges from the original ({kind})",
                      f"Learner1D({cfg}) step {step}: {detail}", {"cfg": cfg, "ops": ops})
-        if not r["errors"]:
+        if not r["errors"] and len(cases) < ncoq:
             cases.append(tcase_term(cfg, r))
             metas.append({"cfg": cfg, "ops": ops, "origin": origin})
 
@@ -232,11 +233,13 @@ def run(chk: Check) -> int:
         zoom = rng.random() < 0.15
         stats["zoom"] = stats.get("zoom", 0) + zoom
         try:
-            r = run_twin(cfg, rng, rng.randint(3, maxlen), ops=zoom_ops(rng, cfg) if zoom else None)
+            r = run_twin(cfg, rng, rng.randint(3, maxlen), ops=zoom_ops(rng, cfg) if zoom else None,
+                         want_obs=len(cases) < ncoq)
         except OverflowError:
             continue        # int(loss * 1e12) overflows for an infinite loss: outside the property (as in C01)
         add(cfg, r, f"seed{chk.seed}/{k}")
-    chk.log(f"1D twin run: {len(metas)} agreeing pairs of {chk.cov['evaluations']}, failures {len(chk.failures)}")
+    chk.log(f"1D twin run: {chk.cov['evaluations'] - len(chk.failures)} agreeing pairs of {chk.cov['evaluations']}, "
+            f"failures {len(chk.failures)}")
 
     mism, _, errors = chk.coq_cases("twin", PREAMBLE, "tcase", cases, "check", None, shard=6)
     for e in errors:
